@@ -453,7 +453,27 @@ pub fn exec_project(input: &Value) -> (Value, Value) {
         // the analyser is a reusable object (a watcher re-analyses with the one it has): with `reanalyse` the project is
         // analysed twice by the same object and the second analysis is the one that is generated from
         if input["project"].get("reanalyse").and_then(|x| x.as_bool()).unwrap_or(false) {
+            // … and between the two analyses the sources change on disk: the first one sees an earlier version of every
+            // file (one more command at its end), the second one the files as they are
+            let mut touched: Vec<(std::path::PathBuf, Vec<u8>)> = Vec::new();
+            for (k, f) in arr(&input["project"], "files").iter().enumerate() {
+                let rp = s(f, "path");
+                if !rp.ends_with(".rs") || rp.contains('\u{fffd}') || f.get("symlink").and_then(|x| x.as_bool()).unwrap_or(false) {
+                    continue;
+                }
+                let p = src.join(&rp);
+                if let Ok(orig) = std::fs::read(&p) {
+                    let mut earlier = orig.clone();
+                    earlier.extend_from_slice(format!("\n#[tauri::command]\npub fn stale_cmd_{}(stale_param: u8, on_stale: tauri::ipc::Channel<u8>) {{}}\n", k).as_bytes());
+                    if std::fs::write(&p, &earlier).is_ok() {
+                        touched.push((p, orig));
+                    }
+                }
+            }
             let _ = analyzer.analyze_project(&cfg.project_path);
+            for (p, orig) in touched {
+                let _ = std::fs::write(&p, &orig);
+            }
         }
         let commands = match analyzer.analyze_project(&cfg.project_path) {
             Ok(c) => c,
@@ -720,6 +740,14 @@ fn wrap_emit(rng: &mut Rng, e: Value) -> Value {
         3 => json!({"k": "expr", "e": {"k": "try", "e": e}}),
         4 => json!({"k": "let", "pat": "wild", "init": e}),
         5 => json!({"k": "expr", "e": {"k": "if", "cond": "flag", "then": [{"k": "expr", "e": e}], "else": null}}),
+        6 if rng.chance(1, 6) => {
+            // a long flat `else if` ladder (a hand-written dispatcher): the emit sits in its last, 66th, branch
+            let mut node = json!({"k": "block", "body": [{"k": "expr", "e": e}]});
+            for i in (0..66).rev() {
+                node = json!({"k": "if", "cond": format!("n == {}", i), "then": [], "else": node});
+            }
+            json!({"k": "expr", "semi": false, "e": node})
+        }
         6 => if rng.chance(1, 2) { json!({"k": "expr", "semi": false, "e": {"k": "if", "cond": "flag", "then": [{"k": "expr", "e": {"k": "lit", "text": "()"}}],
                     "else": {"k": "block", "body": [{"k": "expr", "e": e}]}}}) } else {
             // `if … else if … else if … else`: the emit sits in the last of four branches
@@ -817,6 +845,18 @@ pub fn random_project(rng: &mut Rng, nfiles: usize, adversarial: bool, externs: 
                 json!({"name": format!("{}{}", rng.pick(&["Active", "Pending", "Done", "InProgress", "Ok"]), k), "attrs": va, "shape": shape})
             }).collect();
             let mut variants = variants;
+            if rng.chance(1, 5) {
+                // `#[serde(skip)]` on a variant (the last one, the first one, all of them)
+                let n = variants.len();
+                for (vi, v) in variants.iter_mut().enumerate() {
+                    let pick = match n % 3 { 0 => vi + 1 == n, 1 => vi == 0, _ => true };
+                    if pick && s(v, "shape") == "unit" {
+                        if let Some(a) = v.get_mut("attrs").and_then(|x| x.as_array_mut()) {
+                            a.push(attr("serde(skip)"));
+                        }
+                    }
+                }
+            }
             if rng.chance(1, 4) {
                 // wire names that differ in letter case only, by identifier or by rename; rename values with a comma
                 match rng.below(3) {
@@ -850,7 +890,7 @@ pub fn random_project(rng: &mut Rng, nfiles: usize, adversarial: bool, externs: 
                     }
                     1 => {
                         fa.push(attr("serde(skip)"));
-                        if rng.chance(1, 3) {
+                        if rng.chance(1, 2) {
                             // a second serde attribute on the same field, after the skip
                             fa.push(attr(*rng.pick(&["serde(default = \"fresh\")", "serde(default)", "serde(rename = \"kept\")"])));
                         }
@@ -861,7 +901,13 @@ pub fn random_project(rng: &mut Rng, nfiles: usize, adversarial: bool, externs: 
                     5 => fa.push(attr("validate(range(min = 0, max = 100), email)")),
                     _ => {}
                 }
-                let ty = any_ty(rng, &type_names, 2, adversarial);
+                let skipped = fa.first().map_or(false, |a| s(a, "text") == "serde(skip)");
+                let ty = if skipped && rng.chance(1, 2) {
+                    // a skipped field typically holds something that is no serde type at all (a handle, a lock)
+                    RTy::Named((*rng.pick(&["OsHandle", "Mutex<Connection>", "RawFd"])).to_string())
+                } else {
+                    any_ty(rng, &type_names, 2, adversarial)
+                };
                 json!({"name": format!("{}{}", rng.pick(&field_names), k), "vis": rng.pick(&["pub", "", "pub(crate)"]), "ty": ty_json(&ty), "attrs": fa})
             }).collect();
             let mut fields = fields;
